@@ -9,6 +9,7 @@ import Pcore.Proofs.FormatMerge
 import Pcore.Proofs.FormatKeyLat
 import Pcore.Proofs.FormatXEmbed
 import Pcore.Generated.FormatLettersX
+import Pcore.Proofs.FormatLat
 /-!
 # C20 — String formatting is total and faithful to the format directive
 
@@ -82,6 +83,13 @@ Full statement / proved / missing
   `C20_x_typ` (a Type is its name and its parameters formatted as an Array under the same map), `C20_x_width_partial` (width reached
   wherever the code applies the string flags: SemVer / URI `s`, Type `s p`).  The full width statement `C20_x_width_full` is FALSE:
   `C20_x_width_fails` (known finding C20-width-ignored: `%20p` of a SemVer, any width on a SemVerRange, Timespan, Timestamp, Sensitive).
+* PER-TYPE MAPS OVER ANY KEY TYPES (`Model/FormatMergeG.lean`: mergeFormats over a key order `KeyOrd` = IsAssignable / Equals / typeRank /
+  String(); `Model/FormatLat.lean`: keys = arbitrary types of the lattice model, acceptance = `Lat.asg key (Lat.ptype v)`):
+  `C20_map_most_specific_any` (the lookup law for ANY key system whose assignability is a partial order ON THE KEYS OF THE MAP and
+  whose names differ: `KeysLawful` — what the law really rests on; for parameterised keys this is the general lattice's business,
+  C02 / C03), `C20_map_most_specific_default_types` / `C20_map_exact_key_any_kind` (the 22 default types of all kinds: the table is
+  an instance, hypotheses by `decide`), `C20_map_most_specific_lattice` (keys = lattice types: the hypotheses are ONE boolean check
+  `lawfulb` evaluated on the keys of the map), witnessed on `{Scalar, Integer, Integer[0, 9]}`.
 * missing: the digits of `%e %f %g %a` (fmt/strconv float formatting is a parameter `FloatIO`; only the dispatch,
   the format string handed over, floatGFormat's fraction restoration and padNumber are modelled and compared);
   NaN/±Inf (not instances of Float in pcore: no Float format entry applies to them).
@@ -891,5 +899,98 @@ example : formatX kindKeys io0 [(.base .arr, .mk { simpleFmt 'a' with ldelim := 
 example : ChildrenTextX kindKeys io0 [] (defaultCFG .base) (arrayChildInd (simpleFmt 's') Ind.default)
     [.uri "a:b".toList, .array [.int 2]] ["URI('a:b')".toList, "[2]".toList] := by
   simp only [ChildrenTextX]; decide +kernel
+
+/-! ## per-type format maps over ANY system of key types (`Model/FormatMergeG.lean`, `Model/FormatLat.lean`; ops `fmtx (mmap ..)`, `fmtt`)
+
+`mergeFormats` orders the merged map by "more acceptors first, then rank, then name".  That the first accepting entry is then the
+entry of the MOST SPECIFIC accepting key rests on exactly this: on the keys of the map, `IsAssignable` is reflexive, transitive and
+antisymmetric, and no two keys print alike (`KeysLawful`).  For the parameterless default types this is a finite table (`decide`);
+for parameterised key types it is the general lattice's business (reflexivity C02, transitivity C03 — which has known exceptions, so
+the hypothesis is about the keys of the map, not about all types). -/
+
+/-- **the lookup law, any key system**: in a merged map whose keys are pairwise different and `KeysLawful`, the format applied to a
+    value is the entry of the most specific key that accepts it -/
+theorem C20_map_most_specific_any {κ : Type} (ks : KeySys κ) (ko : KeyOrd κ) (m : GMap κ) (hk : KeysLawful ko (m.map (·.1)))
+    (hn : (m.map (·.1)).Nodup) (K : κ) (t : GTree κ) (v : XVal) (hm : (K, t) ∈ m) (hacc : ks.acc K v = true)
+    (hleast : ∀ e ∈ m, ks.acc e.1 v = true → ko.sub e.1 K = true) :
+    getG ks (sortEntriesG ko m) v = t :=
+  getG_sortEntriesG_least ks ko m hk hn K t v hm hacc hleast
+
+/-- … the 22 parameterless default types of all kinds are an instance: the hypotheses on the key order hold by `decide` on the table -/
+theorem C20_map_most_specific_default_types (m : GMap XKey) (hn : (m.map (·.1)).Nodup) (K : XKey) (t : GTree XKey) (v : XVal)
+    (hm : (K, t) ∈ m) (hacc : K.accepts v.kind = true) (hleast : ∀ e ∈ m, e.1.accepts v.kind = true → XKey.sub e.1 K = true) :
+    getG kindKeys (sortEntriesG xkeyOrd m) v = t :=
+  C20_map_most_specific_any kindKeys xkeyOrd m (xkeyOrd_lawful _) hn K t v hm hacc hleast
+
+/-- … on what `mergeFormats` builds from the defaults `lo` and the user's map `hi`: the entry for the exact type of a value of ANY
+    kind is the one applied; no hypothesis on the maps -/
+theorem C20_map_exact_key_any_kind (mt : GTree XKey → GTree XKey → GTree XKey) (lo hi : GMap XKey) (v : XVal) (t : GTree XKey)
+    (hm : (v.kind.key, t) ∈ mergedEntriesG xkeyOrd mt lo hi) :
+    getG kindKeys (sortEntriesG xkeyOrd (mergedEntriesG xkeyOrd mt lo hi)) v = t :=
+  C20_map_most_specific_default_types _ (mergedEntriesG_keys_nodup xkeyOrd xkeyOrd_eqv mt lo hi) v.kind.key t v hm
+    (XKind.key_accepts v.kind) (fun e _ h => XKey.accepts_sub_exact e.1 v.kind h)
+
+/-- non-vacuity: `{Scalar => '%s', SemVer => '%p', Timespan => …}` — a SemVer gets the SemVer entry although Scalar accepts it too,
+    with the defaults merged in -/
+example : (getG kindKeys (contextMapG xkeyOrd .base [(.base .scalar, .mk (simpleFmt 's') none), (.semver, .mk (simpleFmt 'p') none)])
+      (.semver "1.0.0".toList)).f.letter = 'p' ∧
+    (getG kindKeys (contextMapG xkeyOrd .base [(.base .scalar, .mk (simpleFmt 's') none), (.semver, .mk (simpleFmt 'p') none)])
+      (.tspan 5)).f.letter = 's' ∧
+    formatX kindKeys io0 (contextMapG xkeyOrd .base [(.base .arr, .mk (simpleFmt 'a') (some [(.semver, .mk (simpleFmt 's') none)]))])
+      (.array [.semver "1.0.0".toList, .str ['a']]) = .text "[1.0.0, 'a']".toList := by decide +kernel
+
+/-- **keys = arbitrary types of the lattice model** (`Integer[0, 9]`, `Array[String]`, `Variant[…]` …): acceptance is
+    `Lat.asg key (Lat.ptype v)`, the order of the merged map is by `Lat.asg` between the keys; the hypotheses of the lookup law are
+    one boolean check on the keys of the map, evaluated with the lattice model -/
+theorem C20_map_most_specific_lattice (cfg : Pcore.Lat.Cfg) (sfh : Bool) (m : GMap LKey)
+    (hchk : lawfulb (latOrd cfg sfh) (m.map (·.1)) = true) (K : LKey) (t : GTree LKey) (v : XVal) (hm : (K, t) ∈ m)
+    (hacc : (latKeys cfg sfh).acc K v = true)
+    (hleast : ∀ e ∈ m, (latKeys cfg sfh).acc e.1 v = true → (latOrd cfg sfh).sub e.1 K = true) :
+    getG (latKeys cfg sfh) (sortEntriesG (latOrd cfg sfh) m) v = t :=
+  C20_map_most_specific_any (latKeys cfg sfh) (latOrd cfg sfh) m (lawfulb_sound _ _ hchk) (lawfulb_nodup _ _ hchk) K t v hm hacc hleast
+
+/-- the three keys of the witness -/
+def kScalar : LKey := ⟨.scalar, "Scalar"⟩
+def kInteger : LKey := ⟨.int Pcore.Lat.Rng.all, "Integer"⟩
+def kInt09 : LKey := ⟨.int ⟨0, 9⟩, "Integer[0, 9]"⟩
+def exLatMap : GMap LKey :=
+  [(kScalar, .mk (simpleFmt 's') none), (kInteger, .mk (simpleFmt 'x') none), (kInt09, .mk (simpleFmt 'd') none)]
+
+/-- non-vacuity of `C20_map_most_specific_lattice`: the map `{Scalar => '%s', Integer => '%x', Integer[0, 9] => '%d'}` passes the
+    check; 5 is formatted by the entry of `Integer[0, 9]`, 50 by that of `Integer`, in whatever order the user wrote the entries -/
+example (cfg : Pcore.Lat.Cfg) : lawfulb (latOrd cfg true) (exLatMap.map (·.1)) = true := by
+  simp [lawfulb, noPairb, exLatMap, kScalar, kInteger, kInt09, latOrd, Pcore.Lat.asg, Pcore.Lat.asgRecv, Pcore.Lat.sameNullary,
+    Pcore.Lat.isStringFamily, Pcore.Lat.Rng.sub, Pcore.Lat.Rng.all, Pcore.Lat.I64.min, Pcore.Lat.I64.max, Pcore.Lat.Ty.isAny]
+
+example (cfg : Pcore.Lat.Cfg) :
+    (getG (latKeys cfg true) (sortEntriesG (latOrd cfg true) exLatMap) (.int 5)).f.letter = 'd' ∧
+    (getG (latKeys cfg true) (sortEntriesG (latOrd cfg true) exLatMap) (.int 50)).f.letter = 'x' := by
+  have hchk : lawfulb (latOrd cfg true) (exLatMap.map (·.1)) = true := by
+    simp [lawfulb, noPairb, exLatMap, kScalar, kInteger, kInt09, latOrd, Pcore.Lat.asg, Pcore.Lat.asgRecv, Pcore.Lat.sameNullary,
+      Pcore.Lat.isStringFamily, Pcore.Lat.Rng.sub, Pcore.Lat.Rng.all, Pcore.Lat.I64.min, Pcore.Lat.I64.max, Pcore.Lat.Ty.isAny]
+  constructor
+  · rw [C20_map_most_specific_lattice cfg true exLatMap hchk kInt09 (.mk (simpleFmt 'd') none) (.int 5) (by simp [exLatMap])]
+    · rfl
+    · simp [latKeys, XVal.toLat, Pcore.Lat.ptype, kInt09, Pcore.Lat.asg, Pcore.Lat.asgRecv, Pcore.Lat.sameNullary, Pcore.Lat.Rng.sub,
+        Pcore.Lat.Ty.isAny]
+    · intro e he _
+      simp only [exLatMap, List.mem_cons, List.mem_nil_iff, or_false] at he
+      rcases he with rfl | rfl | rfl <;>
+        simp [latOrd, kScalar, kInteger, kInt09, Pcore.Lat.asg, Pcore.Lat.asgRecv, Pcore.Lat.sameNullary, Pcore.Lat.isStringFamily,
+          Pcore.Lat.Rng.sub, Pcore.Lat.Rng.all, Pcore.Lat.I64.min, Pcore.Lat.I64.max, Pcore.Lat.Ty.isAny]
+  · rw [C20_map_most_specific_lattice cfg true exLatMap hchk kInteger (.mk (simpleFmt 'x') none) (.int 50) (by simp [exLatMap])]
+    · rfl
+    · simp [latKeys, XVal.toLat, Pcore.Lat.ptype, kInteger, Pcore.Lat.asg, Pcore.Lat.asgRecv, Pcore.Lat.sameNullary, Pcore.Lat.Rng.sub,
+        Pcore.Lat.Rng.all, Pcore.Lat.I64.min, Pcore.Lat.I64.max, Pcore.Lat.Ty.isAny]
+    · intro e he hacc
+      simp only [exLatMap, List.mem_cons, List.mem_nil_iff, or_false] at he
+      rcases he with rfl | rfl | rfl
+      · simp [latOrd, kScalar, kInteger, Pcore.Lat.asg, Pcore.Lat.asgRecv, Pcore.Lat.sameNullary, Pcore.Lat.isStringFamily,
+          Pcore.Lat.Rng.sub, Pcore.Lat.Rng.all, Pcore.Lat.I64.min, Pcore.Lat.I64.max, Pcore.Lat.Ty.isAny]
+      · simp [latOrd, kInteger, Pcore.Lat.asg, Pcore.Lat.asgRecv, Pcore.Lat.sameNullary, Pcore.Lat.Rng.sub, Pcore.Lat.Ty.isAny]
+      · exfalso
+        revert hacc
+        simp [latKeys, XVal.toLat, Pcore.Lat.ptype, kInt09, Pcore.Lat.asg, Pcore.Lat.asgRecv, Pcore.Lat.sameNullary, Pcore.Lat.Rng.sub,
+          Pcore.Lat.Ty.isAny]
 
 end Pcore.Format
